@@ -1301,3 +1301,168 @@ def c07(tier):
 
 
 PLANS.update({"C07": c07})
+
+
+# ------------------------------------------------------------------------------------------
+def lib_converter():
+    """memoising access to the library's conversion for given settings, through bobdrive"""
+    cache = {}
+
+    def convert_many(pairs):
+        todo = [(t, s) for (t, s) in pairs if (t, _json.dumps(s, sort_keys=True)) not in cache]
+        if todo:
+            reqs = [{"id": i, "input": t, "entry": "settings", "settings": s} for i, (t, s) in enumerate(todo)]
+            resp = common.run_requests(reqs, tag="lib")
+            for i, (t, s) in enumerate(todo):
+                cache[(t, _json.dumps(s, sort_keys=True))] = resp[i].get("svg", "<<library did not return>>")
+
+    def convert(t, s):
+        key = (t, _json.dumps(s, sort_keys=True))
+        if key not in cache:
+            convert_many([(t, s)])
+        return cache[key]
+    return convert, convert_many
+
+
+def c19(tier):
+    from . import shells
+    run = Run("C19", tier)
+    run.rule = ("model: Cli.tla - the protocol machine ParseArgs/ReadInput/MapSettings/Convert/WriteOutput/Exit with "
+                "fault actions; TLC enumerates all 2^9 option subsets x input modes x fault sets, checks that the "
+                "machine's outcome equals the reference functions, exit = 0 iff no fault, termination; every scenario "
+                "is replayed %s against the real svgbob_cli binary with seeded random values and inputs; the trace "
+                "specification evaluates CliOK (exit status, stdout = document + newline / file verbatim, diagnostic "
+                "and no partial output on failure) with the library's own conversion for the mapped settings as "
+                "reference; plus build-mode scenarios (random directories, output dir, missing dir). every scenario "
+                "is non-trivial" % ("once" if tier == "quick" else "8 times"))
+    r = common.rng("C19")
+    cli, _srv = common.build_bins()
+    res = run.model("Cli", "Cli.cfg")
+    scens = common.tla_json_strings(res["lines"], "REPLAY")
+    reps = 1 if tier == "quick" else 8
+    texts = [t for t in gen.mixed_corpus(r, 60) if t.strip() and not t.startswith("-") and "\\n" not in t and "\x00" not in t
+             and not t.lstrip().startswith("-")]
+    texts += ["+--+\n|ab|\n+--+", "o-->*", gen.box(5, 1, "round", "{a}") + "\n# Legend:\na = {fill:red}"]
+    convert, convert_many = lib_converter()
+    work = os.path.join(common.rundir(), "cli")
+    os.makedirs(work, exist_ok=True)
+    jobs = []
+    k = 0
+    for rep in range(reps):
+        for sc in scens:
+            jobs.append((k, sc, r.choice(texts), common.rng("C19/%d" % k)))
+            k += 1
+    from concurrent.futures import ThreadPoolExecutor
+
+    def one(job):
+        idx, sc, text, rr = job
+        ob, info = shells.run_cli(cli, rr, sc, text, convert, work, idx)
+        return sc, text, ob, info
+    # pre-compute nothing: the library conversion is memoised on demand (thread-safe enough: idempotent)
+    with ThreadPoolExecutor(max_workers=common.NCPU) as ex:
+        for sc, text, ob, info in ex.map(one, jobs):
+            run.add_event({"props": ["C19"], "sc": {"opts": sc["opts"], "inmode": sc["inmode"], "fault": sc["fault"]}, "ob": ob},
+                          {"input": text, "scenario": sc, "cli": info})
+    run.replayed = len(jobs)
+    nb = 40 if tier == "quick" else 600
+    for i in range(nb):
+        b, ob, info = shells.run_build(cli, common.rng("C19/b%d" % i), [r.choice(texts) for _ in range(4)], convert, work, i)
+        run.add_event({"props": ["C19build"], "build": b, "ob": ob}, {"build": b, "cli": info})
+    run.samples += [{"scenario": scens[5]}, {"scenario": scens[-1]}]
+    run.validate(shard=2000)
+    run.assumptions = std_assumptions() + ["SHA-256 equality stands for byte equality",
+                                           "the library's conversion for the mapped settings is computed by bobdrive from the same tree"]
+    return run.finish()
+
+
+PLANS.update({"C19": c19})
+
+
+# ------------------------------------------------------------------------------------------
+def c20(tier):
+    import re as _re
+    from . import shells
+    from concurrent.futures import ThreadPoolExecutor
+    run = Run("C20", tier)
+    nclients = 16
+    nreq = 60 if tier == "quick" else 1500
+    run.rule = ("model: Server.tla with 3 clients x %d requests of 7 classes, all interleavings: the response is a "
+                "function of the request alone, every response is allowed for its class, the server stays alive, every "
+                "request is answered (TLC, liveness); code: one svgbob_server process on 127.0.0.1, first a sequential "
+                "client, then %d concurrent clients each issuing %d seeded requests (GET, POST of diagrams up to 20 kB "
+                "and hostile markup, empty body, invalid UTF-8, oversize 2 MiB+, other methods/paths, malformed raw "
+                "requests) and a final probe GET; each exchange is an event with the SHA-256 of the response body and "
+                "of the library's own default conversion of the posted body; the trace specification evaluates "
+                "ExchangeOK; the process must still be running at the end. every exchange is non-trivial"
+                % (2 if tier == "quick" else 3, nclients, nreq))
+    path = os.path.join(common.rundir(), "MC_C20.cfg")
+    with open(path, "w") as f:
+        f.write("CONSTANTS\n  Clients = {c1, c2, c3}\n  MaxReq = %d\nSPECIFICATION Spec\nPROPERTY AllAnswered\n"
+                "INVARIANTS ResponseIsFunctionOfRequest ResponsesAllowed ServerAlive\nCHECK_DEADLOCK FALSE\n" % (1 if tier == "quick" else 2))
+    run.model("Server", path, timeout=3000)
+    _cli, srvbin = common.build_bins()
+    toml = open(os.path.join(common.REPO, "crates", "svgbob_server", "Cargo.toml")).read()
+    name = _re.search(r'^name\s*=\s*"([^"]+)"', toml, _re.M).group(1)
+    ver = _re.search(r'^version\s*=\s*"([^"]+)"', toml, _re.M).group(1)
+    hello_sha = shells.sha(("%s %s" % (name, ver)).encode())
+    r = common.rng("C20")
+    corpus = [t for t in gen.mixed_corpus(r, 120)] + ["", " ", "<script>alert(1)</script>", "</svg>", "a\n# Legend:\na={x}",
+                                                     gen.random_grid(r, 150, 120, "-|+.' ab", 0.7)[:20000]]
+    convert, convert_many = lib_converter()
+    convert_many([(t, {}) for t in corpus])
+    lib_sha = {t: shells.sha(convert(t, {}).encode("utf-8")) for t in corpus}
+    srv = shells.Server(srvbin)
+    srv.start()
+    events = []
+    try:
+        def exchange(rr, cid, seq):
+            kind = rr.choice(["get", "post_ok", "post_ok", "post_ok", "post_badutf8", "other_method", "other_path", "malformed",
+                              "post_oversize" if rr.random() < 0.15 else "post_ok"])
+            want = ""
+            if kind == "get":
+                st, body = shells.http_request(srv.port, "GET", "/")
+                want = hello_sha
+            elif kind == "post_ok":
+                t = rr.choice(corpus)
+                st, body = shells.http_request(srv.port, "POST", "/", t.encode("utf-8"))
+                want = lib_sha[t]
+            elif kind == "post_badutf8":
+                st, body = shells.http_request(srv.port, "POST", "/", rr.choice([b"\xff\xfe+--+", b"ab\xc3", b"\x80", b"+-+\xed\xa0\x80"]))
+            elif kind == "post_oversize":
+                st, body = shells.http_request(srv.port, "POST", "/", b"-" * (2 * 1024 * 1024 + rr.randint(1, 4096)), timeout=60)
+            elif kind == "other_method":
+                st, body = shells.http_request(srv.port, rr.choice(["PUT", "DELETE", "PATCH"]), "/", b"x")
+            elif kind == "other_path":
+                st, body = shells.http_request(srv.port, rr.choice(["GET", "POST"]), rr.choice(["/x", "/svg", "/../etc", "/%00"]), None)
+            else:
+                st, body = shells.raw_request(srv.port, rr.choice([b"garbage\r\n\r\n", b"GET\r\n\r\n", b"\x00\x01\x02\r\n\r\n",
+                                                                  b"POST / HTTP/1.1\r\nContent-Length: abc\r\n\r\n", b"GET / HTTP/9.9\r\n\r\n"]))
+            return {"client": cid, "seq": seq, "class": kind, "status": st, "body_sha": shells.sha(body), "want_sha": want}
+
+        def client(cid, n):
+            rr = common.rng("C20/client/%d" % cid)
+            evs = [exchange(rr, cid, k) for k in range(n)]
+            st, body = shells.http_request(srv.port, "GET", "/")       # final probe: the server still answers
+            evs.append({"client": cid, "seq": n, "class": "get", "status": st, "body_sha": shells.sha(body), "want_sha": hello_sha})
+            return evs
+        events += client(0, nreq)            # sequential phase
+        with ThreadPoolExecutor(max_workers=nclients) as ex:
+            for evs in ex.map(lambda c: client(c, nreq), range(1, nclients + 1)):
+                events += evs
+        alive = srv.alive()
+    finally:
+        srv.stop()
+    for ob in events:
+        run.add_event({"props": ["C20"], "ob": ob}, {"exchange": ob})
+    # the process itself must have survived
+    run.add_event({"props": ["C20"], "ob": {"client": -1, "seq": 0, "class": "get", "status": 200 if alive else 0,
+                                            "body_sha": hello_sha, "want_sha": hello_sha}}, {"exchange": "process alive at the end"})
+    run.samples += [events[3], events[-1]]
+    run.notes["status_histogram"] = {k: sum(1 for e in events if "%s:%d" % (e["class"], e["status"]) == k)
+                                     for k in sorted(set("%s:%d" % (e["class"], e["status"]) for e in events))}
+    run.validate(shard=5000)
+    run.assumptions = std_assumptions() + ["SHA-256 equality stands for byte equality", "loopback networking on 127.0.0.1"]
+    return run.finish()
+
+
+PLANS.update({"C20": c20})
